@@ -264,7 +264,7 @@ Definition front_end_gen (lsched : list nat) (rm : row -> row -> list nat)
       let names := map fst inputs in
       let asg := names ++ flat_map (fun bl => b_def (xb bl)) g in
       check_cfg_from g (snd ws) asg glob
-        (fun x => memb x (getv D 0))
+        (fun x => (0 <? length g) && memb x (getv D 0))
         (fun w x => (w <? length g) && memb x (getv M w))
         rm inputs
   end.
